@@ -284,6 +284,33 @@ def run(pid, tier, seed):
                 exp = b"".join(m[2] for m in select(msgs, a, b))
                 cases.append((Case(fl, argv + [arg], exp, note={"after": a, "before": b, "container": cont}), msgs))
 
+        # ---- several sources under one window: each is cut by the window, then merged (plain: binary search; gz: linear)
+        for mi in range(4 if tier == "quick" else 30):
+            pick = rng.sample(range(len(files)), min(len(files), rng.choice([2, 3])))
+            fl, argvf, allm = {}, [], []
+            for w, fi in enumerate(pick):
+                p, pgz, blob, msgs = files[fi]
+                if rng.random() < 0.5:
+                    fl["m%d.log" % w] = blob
+                    argvf.append("m%d.log" % w)
+                else:
+                    fl["m%d.log.gz" % w] = gen.gz_bytes(blob)
+                    argvf.append("m%d.log.gz" % w)
+                allm.append(msgs)
+            inst_all = sorted({(m[0], m[1]) for ms in allm for m in ms})
+            a = rng.choice(inst_all + [None])
+            b = rng.choice([x for x in inst_all if a is None or x >= a] + [None])
+            if a is None and b is None:
+                a = inst_all[len(inst_all) // 2]
+            woff = rng.choice([None, 60, -480, 330])
+            argv = ["--color", "never", "--blocksz", str(rng.choice([64, 4096, 65536]))]
+            if a is not None:
+                argv += ["-a", gen.fmt_ts(a[0], a[1], woff, 6)]
+            if b is not None:
+                argv += ["-b", gen.fmt_ts(b[0], b[1], woff, 6)]
+            merged = sorted([((m[0], m[1]), w, j, m[2]) for w, ms in enumerate(allm) for j, m in enumerate(select(ms, a, b))], key=lambda x: (x[0], x[1], x[2]))
+            cases.append((Case(fl, argv + argvf, b"".join(x[3] for x in merged), note={"after": a, "before": b, "container": "merge%d" % len(pick)}), None))
+
         # ---- the other kinds: an event log with records stored out of time order (windows placed on and around every
         #      inversion), an accounting file not stored chronologically, a journal; every bound in several spellings
         other_runs = 0
